@@ -515,7 +515,10 @@ func (aof *AppendableFile) readAt(bs []byte, off int64) (n int, err error) {
 	}
 
 	if off < aof.fileOffset {
-		n, err = aof.f.ReadAt(bs, aof.fileBaseOffset+off)
+		// never read past the logical end of the file part: after a rewind the
+		// file may still hold stale bytes that are superseded by buffered data
+		flen := minInt(len(bs), int(aof.fileOffset-off))
+		n, err = aof.f.ReadAt(bs[:flen], aof.fileBaseOffset+off)
 		if simhook.Enabled && n > 0 {
 			simhook.IOCorruptRead(aof.f.Name(), aof.fileBaseOffset+off, bs[:n])
 		}
